@@ -22,7 +22,7 @@ def check(idx: Index, rep: Report, tier: str) -> str:
 
     # ---- R1 scratch provenance
     r = rep.rule("C20.R1", "every register added to the scratch pool derives from the operation's designated free registers", floor=2)
-    apps = [c for c in calls_in(f.node) if call_attr(c) in ("append", "insert", "appendleft", "add") and isinstance(c.func, ast.Attribute) and unparse(c.func.value).startswith("free_registers[") and c.args]
+    apps = [c for c in calls_in(f.node) if call_attr(c) in ("append", "insert", "appendleft", "add") and isinstance(c.func, ast.Attribute) and re.match(r"free_registers(\[|\.setdefault\()", unparse(c.func.value)) and c.args]
     if len(apps) < 1:
         raise AnalysisError(f"{f.fq}: scratch pool appends not found")
     for c in apps:
@@ -42,7 +42,7 @@ def check(idx: Index, rep: Report, tier: str) -> str:
             nfa = norm_facts(text_facts(f.node, c))
             if not any(re.fullmatch(rf"{re.escape(unparse(a))} in \w+", t_) and p_ is False for t_, p_ in nfa):
                 r.fail(inst + ":has-input", Finding("C20.R1", f.fq, f"scratch-with-pending-input:{unparse(a)}", f"`{unparse(c)}` adds `{src}` to the scratch pool without testing that no move writes it (`{unparse(a)} not in <moves by destination>`): when the chain walk stops early (fan-out `break`) the register is a destination that has just received its value, and a later cycle overwrites it", f"{PM}:{c.lineno}"))
-            r.fail(inst, Finding("C20.R1", f.fq, f"scratch-not-designated:{unparse(a)}", f"`{unparse(c)}` adds `{src}` - a register reached at the top of a move chain, i.e. one that is only read by the parallel move - to the scratch pool; it is later overwritten to break a cycle although it is not a destination nor a designated free register (the value living in it is clobbered)", f"{PM}:{c.lineno}"))
+            r.fail(inst, Finding("C20.R1", f.fq, "scratch-not-designated:chain-top", f"`{unparse(c)}` adds `{src}` - a register reached at the top of a move chain, i.e. one that is only read by the parallel move - to the scratch pool; it is later overwritten to break a cycle although it is not a destination nor a designated free register (the value living in it is clobbered)", f"{PM}:{c.lineno}"))
 
     # ---- R2 xor swap template
     r = rep.rule("C20.R2", "the three-instruction xor template is a swap: evaluated in the domain 'register -> xor-set over {a, b}' it leaves a's value in b's register and b's value in a's register, never reading a clobbered SSA value", floor=1)
@@ -146,7 +146,7 @@ def check(idx: Index, rep: Report, tier: str) -> str:
 
         def _nofree(nf):
             for t_, p_ in nf:
-                if re.fullmatch(r"free_registers\[.+\]", t_):
+                if re.fullmatch(r"free_registers\[.+\]|free_registers\.get\(.+, \(\)\)|free_registers\.get\(.+, \[\]\)|free_registers\.get\(.+\)", t_):
                     return not p_
                 if re.fullmatch(r"len\(free_registers\[.+\]\) == 0", t_):
                     return p_
@@ -157,6 +157,12 @@ def check(idx: Index, rep: Report, tier: str) -> str:
         nf_r = norm_facts(text_facts(f.node, fr[0]))
         nf_s = norm_facts(text_facts(f.node, swaps[0]))
         ok = _cls(nf_r) is False and _nofree(nf_r) is True and _cls(nf_s) is True and _nofree(nf_s) is True
+        if not ok:
+            # a guard that talks about the register class / the scratch pool in a spelling this rule does not read is
+            # "cannot decide", not a violation
+            for nf_, what_ in ((nf_r, "failure path"), (nf_s, "xor swap")):
+                if (_cls(nf_) is None and any("RegisterType" in t_ for t_, _ in nf_)) or (_nofree(nf_) is None and any("free_registers" in t_ for t_, _ in nf_)):
+                    raise AnalysisError(f"{f.fq}: guards of the {what_} not understood: {sorted(t_ for t_, _ in nf_ if 'RegisterType' in t_ or 'free_registers' in t_)[:3]}")
         (r.ok(f.fq + ":float-cycle", f"{f.loc} xor swaps only for integer registers without scratch; other classes fail") if ok else r.fail(f.fq + ":float-cycle", Finding("C20.R3", f.fq, "float-cycle", "the xor swap must be used only for integer registers when no scratch register exists; other register classes must raise PassFailedException", f.loc)))
     else:
         r.fail(f.fq + ":float-cycle", Finding("C20.R3", f.fq, "float-cycle", "the failure path for float cycles without scratch register disappeared", f.loc))
@@ -173,6 +179,11 @@ def check(idx: Index, rep: Report, tier: str) -> str:
     # alternative: the sources are removed in bulk: leaves = set(dst_types) - {s.type for s in srcs} (or -= / difference_update)
     ALL_SRC_TYPES = (r"\{(\w+)\.type for \1 in srcs\}", r"set\(src_types\)", r"src_types", r"set\(\((\w+)\.type for \1 in srcs\)\)")
     bulk = False
+    ALL_SRC = r"(?:set\()?\(?\{?\(?(?:(\w+)\.type for \1 in srcs|src_types)\)?\}?\)?\)?"
+    for st_ in walk_local(f.node):
+        tt0_ = unparse(st_) if isinstance(st_, (ast.Assign, ast.AnnAssign, ast.AugAssign, ast.Expr)) else ""
+        if re.fullmatch(rf"leaves(?:: [^=]+)? = set\(dst_types\)\.difference\({ALL_SRC}\)", tt0_) or re.fullmatch(rf"leaves(?:: [^=]+)? = \{{?\(?(\w+) for \1 in dst_types if \1 not in {ALL_SRC}\)?\}}?", tt0_):
+            bulk = True
     for st_ in walk_local(f.node):
         tt_ = unparse(st_) if isinstance(st_, (ast.Assign, ast.AnnAssign, ast.AugAssign, ast.Expr)) else ""
         for pat_ in ALL_SRC_TYPES:
@@ -184,7 +195,8 @@ def check(idx: Index, rep: Report, tier: str) -> str:
         r.ok(f.fq + ":leaves", f"{f.loc} leaves.discard(src.type) on every iteration")
     else:
         r.fail(f.fq + ":leaves", Finding("C20.R4", f.fq, "source-stays-leaf", "an iteration of the edge-collection loop skips `leaves.discard(src.type)` (e.g. for a self-move): a register that is read stays a leaf, is treated as free and is overwritten", f.loc))
-    asserts = [n for n in walk_local(f.node) if isinstance(n, ast.Assert) and unparse(n.test) == "results[output_index[dst_type]] is None"]
+    stores_ = {unparse(n.targets[0]) for n in walk_local(f.node) if isinstance(n, ast.Assign) and isinstance(n.targets[0], ast.Subscript) and unparse(n.targets[0].value) == "results"}
+    asserts = [n for n in walk_local(f.node) if isinstance(n, ast.Assert) and (m_ := re.fullmatch(r"(results\[.+\]) is None", unparse(n.test))) and m_.group(1) in stores_]
     (r.ok(f.fq + ":once", f"{f.loc} a destination receives its result once in the tree phase") if asserts else r.fail(f.fq + ":once", Finding("C20.R4", f.fq, "result-twice", "the single-assignment check of destination results disappeared", f.loc)))
     # the moves are emitted by match_and_rewrite and by the module-level helpers it calls (one level)
     scopes = [f.node]
